@@ -178,7 +178,7 @@ def run(prop_id: str, tier: str, seed: int, replay=None, jobs=None) -> int:
             pass
         except Exception as exc:  # noqa
             inconclusive.append(f"evidence does not validate: {exc}")
-        env.EVIDENCE.mkdir(exist_ok=True)
+        env.EVIDENCE.mkdir(parents=True, exist_ok=True)
         (env.EVIDENCE / f"{prop_id}.json").write_text(json.dumps(ev, indent=1, default=str) + "\n")
 
     shutil.rmtree(work, ignore_errors=True)
